@@ -408,6 +408,171 @@ func (g *emtGen) cmpTable(fd *ast.FuncDecl, conds map[string]string) (string, er
 	return b.String(), nil
 }
 
+var lenConds = []struct{ goName, lean string }{
+	{"ConditionLenEqual", "lenEqual"}, {"ConditionLenNotEqual", "lenNotEqual"}, {"ConditionLenLess", "lenLess"},
+	{"ConditionLenLessEqual", "lenLessEqual"}, {"ConditionLenGreater", "lenGreater"}, {"ConditionLenGreaterEqual", "lenGreaterEqual"},
+}
+
+// invertedTable reads `switch op { case ast.OperatorX: return ast.OperatorY … }` of invertedOperatorType.
+func (g *emtGen) invertedTable(fd *ast.FuncDecl) (string, error) {
+	sws := switchesOn(fd.Body, "op")
+	if len(sws) != 1 || len(fd.Body.List) != 2 || fd.Body.List[0] != ast.Stmt(sws[0]) {
+		return "", g.errf(fd.Name, "body of invertedOperatorType (one `switch op`, then panic)")
+	}
+	if !strings.HasPrefix(g.src(fd.Body.List[1]), "panic(") {
+		return "", g.errf(fd.Body.List[1], "statement after the switch of invertedOperatorType")
+	}
+	lean := func(name string) string {
+		for _, o := range srcCmps {
+			if o.goName == name {
+				return o.lean
+			}
+		}
+		return ""
+	}
+	t := map[string]string{}
+	for _, c := range sws[0].Body.List {
+		cc := c.(*ast.CaseClause)
+		if len(cc.List) != 1 || len(cc.Body) != 1 {
+			return "", g.errf(cc, "case of invertedOperatorType")
+		}
+		ret, ok := cc.Body[0].(*ast.ReturnStmt)
+		if !ok || len(ret.Results) != 1 {
+			return "", g.errf(cc.Body[0], "return of an operator")
+		}
+		from, to := lean(g.src(cc.List[0])), lean(g.src(ret.Results[0]))
+		if from == "" || to == "" {
+			return "", g.errf(cc, "comparison operators")
+		}
+		if _, dup := t[from]; dup {
+			return "", g.errf(cc, "operator twice")
+		}
+		t[from] = to
+	}
+	var b strings.Builder
+	b.WriteString("\n/-- `invertedOperatorType` (emitter.go): the operator `emitCondition` uses after swapping the operands -/\ndef inverted : SrcCmp → SrcCmp\n")
+	for _, o := range srcCmps {
+		to, ok := t[o.lean]
+		if !ok {
+			return "", g.errf(fd.Name, "invertedOperatorType has no case for %s", o.goName)
+		}
+		fmt.Fprintf(&b, "  | .%s => .%s\n", o.lean, to)
+	}
+	return b.String(), nil
+}
+
+// lenCondTable reads the `switch op` of emitCondition (comparison of the length of a string).
+func (g *emtGen) lenCondTable(fd *ast.FuncDecl) (string, error) {
+	sws := switchesOn(fd.Body, "op")
+	if len(sws) != 1 {
+		return "", g.errf(fd.Name, "%d `switch op` statements in emitCondition, expected 1", len(sws))
+	}
+	conds := map[string]string{}
+	for _, c := range lenConds {
+		conds[c.goName] = c.lean
+	}
+	t := map[string]string{}
+	for _, c := range sws[0].Body.List {
+		cc := c.(*ast.CaseClause)
+		if cc.List == nil {
+			if len(cc.Body) != 1 || !strings.HasPrefix(g.src(cc.Body[0]), "panic(") {
+				return "", g.errf(cc, "default of the length switch")
+			}
+			continue
+		}
+		if len(cc.List) != 1 || len(cc.Body) != 1 {
+			return "", g.errf(cc, "case of the length switch")
+		}
+		lean, err := g.condAssign(cc, conds)
+		if err != nil {
+			return "", err
+		}
+		op := g.src(cc.List[0])
+		if _, dup := t[op]; dup {
+			return "", g.errf(cc, "operator twice")
+		}
+		t[op] = lean
+	}
+	var b strings.Builder
+	b.WriteString("\n/-- the `ConditionLen…` conditions of `OpIfString` -/\ninductive LenCond\n ")
+	for _, c := range lenConds {
+		b.WriteString(" | " + c.lean)
+	}
+	b.WriteString("\n  deriving DecidableEq, Repr, Inhabited\n")
+	b.WriteString("\n/-- `emitCondition`, comparison of `len(s)` (`s` a string) with a value: the condition for an operator\n(after `invertedOperatorType` when `len(s)` is the right operand) -/\ndef lenCond : SrcCmp → LenCond\n")
+	for _, o := range srcCmps {
+		l, ok := t[o.goName]
+		if !ok {
+			return "", g.errf(fd.Name, "emitCondition has no length condition for %s", o.goName)
+		}
+		fmt.Fprintf(&b, "  | .%s => .%s\n", o.lean, l)
+	}
+	return b.String(), nil
+}
+
+// ifLenTable reads, in `case OpIfString, -OpIfString:` of (*VM).run, the block
+//
+//	v1 := vm.string(a); v2 := int(vm.intk(c, op < 0)); switch bb { case ConditionLenX: cond = len(v1) OP v2 … }
+func (g *emtGen) ifLenTable(runFile *ast.File) (string, error) {
+	var cc *ast.CaseClause
+	ast.Inspect(runFile, func(n ast.Node) bool {
+		if c, ok := n.(*ast.CaseClause); ok && len(c.List) == 2 && g.src(c.List[0]) == "OpIfString" && g.src(c.List[1]) == "-OpIfString" {
+			cc = c
+			return false
+		}
+		return true
+	})
+	if cc == nil {
+		return "", fmt.Errorf("shape not recognised: no `case OpIfString, -OpIfString:` in run.go")
+	}
+	var block *ast.BlockStmt
+	ast.Inspect(cc, func(n ast.Node) bool {
+		if ifs, ok := n.(*ast.IfStmt); ok && g.src(ifs.Cond) == "bb <= ConditionLenGreaterEqual" {
+			block = ifs.Body
+		}
+		return true
+	})
+	if block == nil || len(block.List) != 3 || g.src(block.List[0]) != "v1 := vm.string(a)" || g.src(block.List[1]) != "v2 := int(vm.intk(c, op < 0))" {
+		return "", g.errf(cc, "length block of OpIfString")
+	}
+	// the branch before it must end at ConditionGreaterEqual, the first Len condition must follow it
+	sw, ok := block.List[2].(*ast.SwitchStmt)
+	if !ok || g.src(sw.Tag) != "bb" {
+		return "", g.errf(block.List[2], "switch bb")
+	}
+	ops := map[string]string{"==": "l == v", "!=": "l != v", "<": "decide (l < v)", "<=": "decide (l ≤ v)", ">": "decide (l > v)", ">=": "decide (l ≥ v)"}
+	t := map[string]string{}
+	for _, c := range sw.Body.List {
+		k := c.(*ast.CaseClause)
+		if len(k.List) != 1 || len(k.Body) != 1 {
+			return "", g.errf(k, "case of the length switch of OpIfString")
+		}
+		as, ok := k.Body[0].(*ast.AssignStmt)
+		if !ok || as.Tok != token.ASSIGN || len(as.Lhs) != 1 || g.src(as.Lhs[0]) != "cond" {
+			return "", g.errf(k.Body[0], "assignment to cond")
+		}
+		be, ok := as.Rhs[0].(*ast.BinaryExpr)
+		if !ok || g.src(be.X) != "len(v1)" || g.src(be.Y) != "v2" || ops[be.Op.String()] == "" {
+			return "", g.errf(as.Rhs[0], "len(v1) OP v2")
+		}
+		name := g.src(k.List[0])
+		if _, dup := t[name]; dup {
+			return "", g.errf(k, "condition twice")
+		}
+		t[name] = ops[be.Op.String()]
+	}
+	var b strings.Builder
+	b.WriteString("\n/-- `case OpIfString, -OpIfString:` with a `ConditionLen…` condition: `l` is `len(vm.string(a))`,\n`v` is `int(vm.intk(c, op < 0))`; whether the next instruction is skipped -/\ndef vmIfLen : LenCond → Int → Int → Bool\n")
+	for _, c := range lenConds {
+		term, ok := t[c.goName]
+		if !ok {
+			return "", g.errf(sw, "OpIfString has no case for %s", c.goName)
+		}
+		fmt.Fprintf(&b, "  | .%s, l, v => %s\n", c.lean, term)
+	}
+	return b.String(), nil
+}
+
 // genEmitterTables returns the Lean text appended to Gen/VMInt.lean.
 func genEmitterTables(repo string, emitFns []string, conds []vmOpSpec) (string, error) {
 	g := &emtGen{fset: token.NewFileSet()}
@@ -455,6 +620,35 @@ func genEmitterTables(repo string, emitFns []string, conds []vmOpSpec) (string, 
 	}
 	s, err = g.cmpTable(fd, cm)
 	if err != nil {
+		return "", err
+	}
+	b.WriteString(s)
+	// conditions: invertedOperatorType and emitCondition (emitter.go), OpIfString (run.go)
+	emitterFile, err := parse("internal/compiler/emitter.go")
+	if err != nil {
+		return "", err
+	}
+	runFile, err := parse("internal/runtime/run.go")
+	if err != nil {
+		return "", err
+	}
+	fd = findFunc(emitterFile, "invertedOperatorType")
+	if fd == nil {
+		return "", fmt.Errorf("shape not recognised: no invertedOperatorType in emitter.go")
+	}
+	if s, err = g.invertedTable(fd); err != nil {
+		return "", err
+	}
+	b.WriteString(s)
+	fd = findFunc(emitterFile, "emitCondition")
+	if fd == nil {
+		return "", fmt.Errorf("shape not recognised: no emitCondition in emitter.go")
+	}
+	if s, err = g.lenCondTable(fd); err != nil {
+		return "", err
+	}
+	b.WriteString(s)
+	if s, err = g.ifLenTable(runFile); err != nil {
 		return "", err
 	}
 	b.WriteString(s)
